@@ -42,6 +42,12 @@ SHAPES = {
         _alg('tb', 'b', refs=[('ta', 'a', 'sv', 'v0')]),
         _alg('tc', 'c', refs=[('ta', 'a', 'sv', 'v1')]),
     ],
+    # state-vector level references and an algorithm with two state vectors
+    'G12': [
+        _alg('ta', 'a', svs={'s0': ['v0', 'v1'], 's1': ['v0']}),
+        _alg('tb', 'b', refs=[('ta', 'a', 's1')]),
+        _alg('tc', 'c', 'analysis', refs=[('ta', 'a', 's0', 'v1')]),
+    ],
     # same task package holds two algorithms; chain of four
     'G11': [_alg('ta', 'a'), _alg('ta', 'a2', refs=[('ta', 'a')]), _alg('tb', 'b', refs=[('ta', 'a2')]), _alg('tb', 'b2', 'analysis', refs=[('tb', 'b')])],
 }
